@@ -76,7 +76,19 @@ void *thread_main(void *arg)
     pthread_barrier_wait(&g_bar);
     for (int i = 0; i < t.len; i++) {
         switch (t.ops[i]) {
-        case O_SHARE: { auto *s = first_owner(t); if (s) cstl_shared_ptr_share(s, free_slot(t, s)); break; }
+        case O_SHARE: {
+            auto *s = first_owner(t);
+            if (s) {
+                // a plain owner held by this thread: the memory must be alive before and after it shares
+                void *m = cstl_shared_ptr_get(s);
+                ((volatile char *)m)[16 + t.id] = 3;
+                if (g_clr.load() != 0) fail("C06.clear.owner_remains", "this thread holds an owning shared pointer, but the clear callback already ran");
+                cstl_shared_ptr_share(s, free_slot(t, s));
+                ((volatile char *)m)[16 + t.id] = 4;
+                if (g_clr.load() != 0) fail("C06.clear.owner_remains", "this thread holds an owning shared pointer, but the clear callback already ran");
+            }
+            break;
+        }
         case O_RESET: { auto *s = first_owner(t); if (s) cstl_shared_ptr_reset(s); break; }
         case O_WEAK_FROM: { auto *s = first_owner(t); if (s) { int k = t.args[i] % NWK; cstl_weak_ptr_from(&t.W[k], s); t.w_set[k] = true; } break; }
         case O_LOCK: {
